@@ -153,6 +153,8 @@ func c06plan(tier string, seed int64) []run.Job {
 		jobs = append(jobs, run.Job{Family: "random", Seed: seed*100000 + int64(i), N: per, P: map[string]int{"strat": 1, "maxlen": 7, "inputs": 6, "nl": 1}})
 		jobs = append(jobs, run.Job{Family: "random", Seed: seed*100000 + 10000 + int64(i), N: per / 4, P: map[string]int{"strat": 0, "maxlen": 7, "inputs": 6, "nl": 1}})
 		jobs = append(jobs, run.Job{Family: "mutual", Seed: seed*100000 + 50000 + int64(i), N: per / 4, P: map[string]int{"inputs": 6, "maxlen": 9}})
+		// End() inside the grammar ("terminated by ';' or by the end of input"): its failure is not a not-found error
+		jobs = append(jobs, run.Job{Family: "random", Seed: seed*100000 + 80000 + int64(i), N: per / 2, P: map[string]int{"strat": 1, "maxlen": 7, "inputs": 6, "nl": 1, "ends": 1, "memoexpr": 0}})
 	}
 	jobs = append(jobs, enumJobs(maxNodes, false, 4, 300)...)
 	jobs = append(jobs, enumJobs(4, true, 4, 300)...)
